@@ -41,6 +41,8 @@ THEOREMS = [
     "GitAi.Sync.looseOnly_not_faithful",
     "GitAi.Sync.maintenance_values",
     "GitAi.Sync.no_loss_code",
+    "GitAi.Sync.storage_irrelevant",
+    "GitAi.Sync.storage_irrelevant_refs",
     "GitAi.Sync.convergence_code",
     "GitAi.Sync.loose_only_probe_loses_note",
     "GitAi.Sync.loose_only_probe_violates",
@@ -725,9 +727,39 @@ def run_batch(res, specs, origin):
     return ok, worlds
 
 
+def set_probe_from_source():
+    """PROBE := what refs.rs:ref_exists is in the working tree (no file is written)."""
+    global PROBE
+    import importlib, sys
+    sys.path.insert(0, os.path.join(C.VERIF, "extract"))
+    try:
+        import sync_ref_probes as X
+        importlib.reload(X)
+        PROBE = X.extract()["ref_exists"]["probe"]
+    except Exception:
+        PROBE = "unknown"
+
+
+def replay_cli(path, spec):
+    """./check C10 --replay <path>: a failing-input replay re-executes the recorded scenario on the binary built
+    from the working tree and re-evaluates the oracles; any other replay re-runs the recorded tier and seed."""
+    w = spec.get("witness") if isinstance(spec, dict) else None
+    if spec.get("kind") != "failing-input" or not isinstance(w, dict) or "scenario" not in w:
+        m = re.search(r"-(\d+)-(quick|thorough)\.json$", path)
+        return run(spec.get("tier") or (m.group(2) if m else "quick"), int(spec.get("seed") or (m.group(1) if m else 1)))
+    world = replay(w["scenario"])
+    same = [f for f in world.failures if f["sig"] == spec.get("sig")]
+    if world.failures:
+        print(f"VIOLATION property={PROP} replay={path} reproduced={'yes' if same else 'other: ' + world.failures[0]['sig']}")
+        return 1
+    print(f"[{PROP}] replay {path}: the recorded scenario no longer fails (oracles all hold)")
+    return 0
+
+
 def replay(spec):
     """re-run one scenario and print observations, prediction and oracle verdicts."""
     ok, out = C.build_git_ai()
+    set_probe_from_source()
     w = run_spec(spec)
     m = run_model([w])[0]
     print(json.dumps({"labels": w.labels, "failures": w.failures, "errors": w.errors, "first_difference": compare(w, m),
